@@ -1,2 +1,4 @@
 import AtomicaModel.Basic
 import AtomicaModel.Grid
+import AtomicaModel.Engine
+import AtomicaModel.EngineIO
